@@ -4,6 +4,7 @@ package xtime
 import (
 	"context"
 	"fmt"
+	"math"
 	"math/rand"
 	"sync"
 	"time"
@@ -98,8 +99,18 @@ func (t *JitterTicker) schedule() {
 	}
 	next := t.d
 	if t.jitter > 0 {
-		// rand.Int63n panics for an argument of zero.
-		next += time.Duration(rand.Int63n(int64(t.jitter*2))) - (t.jitter)
+		// rand.Int63n panics for an argument of zero. The offset in [-jitter, jitter) is drawn as
+		// a magnitude and a sign, and added with care, because neither jitter*2 nor d+offset need
+		// fit in a Duration.
+		offset := time.Duration(rand.Int63n(int64(t.jitter)))
+		if rand.Intn(2) == 0 {
+			offset = -offset - 1
+		}
+		if offset > 0 && next > math.MaxInt64-offset {
+			next = math.MaxInt64
+		} else {
+			next += offset
+		}
 	}
 
 	// To prevent a latent goroutine already spawned but not yet running the below function from
